@@ -111,7 +111,7 @@ theorem C02_equal_write_no_rerun (fuel : Nat) (P : Prog) (s : Storage) (k v : Na
     runS fuel P s (.set k v :: ops) = runS fuel P s ops := by
   rw [runS_cons, C02_equal_write_noop fuel P s k v nd h hv]
 
-example : alookup (after 8 10 progF22 [.set 0 1, .set 2 1, .set 3 0, .call 0 0, .set 3 1]).srcs (.src 0) = some ⟨1, 1⟩ := by
+example : alookup (after 8 10 progF22 [.set 0 1, .set 2 1, .set 3 0, .call 0 0, .set 3 1]).srcs (.src 0) = some ⟨1, 2⟩ := by
   decide +kernel
 
 /-- **Unrelated writes, nesting depth 0.**  Extra hypotheses: `Flat P`; the calls of `pre` and the
@@ -149,9 +149,9 @@ example : Flat [⟨0, .add (.src .param) (.sing 0)⟩] ∧
     (∀ r, alookup (after 4 10 [⟨0, .add (.src .param) (.sing 0)⟩] ([.set 0 4, .set 1 1, .sset 0 2] ++ [.call 0 0])).derived ⟨0, 0⟩ = some r →
       ∀ d, d ∈ r.deps → d.node ≠ .source (.src 1) ∧ d.node ≠ .absent (.src 1)) :=
   ⟨by decide, cleanCalls_of_B _ _ _ _ (by decide +kernel), by
-    intro r hr; have : r = ⟨7, 1, 1, [⟨.source (.src 0), 1⟩, ⟨.source (.sing 0), 1⟩]⟩ := by
+    intro r hr; have : r = ⟨7, 4, 4, [⟨.source (.src 0), 4⟩, ⟨.source (.sing 0), 4⟩]⟩ := by
       have h2 : alookup (after 4 10 [⟨0, .add (.src .param) (.sing 0)⟩] ([.set 0 4, .set 1 1, .sset 0 2] ++ [.call 0 0])).derived ⟨0, 0⟩ =
-          some ⟨7, 1, 1, [⟨.source (.src 0), 1⟩, ⟨.source (.sing 0), 1⟩]⟩ := by decide +kernel
+          some ⟨7, 4, 4, [⟨.source (.src 0), 4⟩, ⟨.source (.sing 0), 4⟩]⟩ := by decide +kernel
       rw [h2] at hr; cases hr; rfl
     subst this; decide⟩
 
